@@ -19,7 +19,7 @@ CHECKS = {
                 text="In every distinct state of the scopes a probe runs finish_cycle twice and compares survivors and Gc count with the shadow (exactly the reachable set plus weakly referenced shells), then clears the weak references and requires the shells to be released by one more cycle.",
                 tech="explicit-state BFS + per-state probe (2x finish_cycle) against shadow reachability"),
     "C03": dict(engine="explorer", cat="model_checking", ref="5/C03",
-                text="Every callback of every transition is bracketed (no destructor run, no Gc block released between entry and exit) and in every state a probe enters each callback kind under 1e9 artificial debt, allocates temporaries, upgrades all weak pointers and re-reads them at exit. Callbacks that mutate and then unwind are bracketed too, and the probe nests rootless_mutate in the callback and in itself (the end of the inner call destructs exactly the inner call's allocations).",
+                text="Every callback of every transition is bracketed (no destructor run, no Gc block released between entry and exit) and in every state a probe enters each callback kind under 1e9 artificial debt, allocates temporaries, upgrades all weak pointers and re-reads them at exit. Callbacks that mutate and then unwind are bracketed too, and the probe nests rootless_mutate in the callback and in itself (the end of the inner call destructs exactly the inner call's allocations). The builder grid of C18 runs as a further stage (every builder kind incl. the Static-unwrapping conversions completes and abandons allocations inside a callback: nothing released while it runs).",
                 tech="explicit-state BFS + per-state probe (callbacks under huge debt), drop/dealloc log bracketing"),
     "C04": dict(engine="explorer", cat="model_checking", ref="5/C04",
                 text="In every distinct state (asleep, mid-mark, marked, mid-sweep at every cursor position, shells present) a probe drops the arena: every id destructed exactly once, every Gc block released once with its allocation layout, no arena allocation outstanding, retained Metrics reads 0. Double destruction / double free / layout mismatch are also checked on every transition. The layout grid of C17 and the builder grid of C18 run as further stages (release layout for every value layout; destructor counts of slice / header allocations).",
@@ -31,10 +31,10 @@ CHECKS = {
                 text="Every sanctioned barrier path (Gc::write/unlock, Gc<Lock>/Gc<RefLock>/Gc<OnceLock> setters, mutate_root/map_root/try_map_root, stash, the four raw barrier forms incl. parent-only with two adoptions and child-only with two parents, the three weak forms, barrier-only calls) is a transition from every state; all later interleavings of collector increments follow by exploration under the safety oracle; C02 probe detects barrier side effects that retain garbage. Also: callbacks that adopt and unwind, weak pointers to unreachable targets changing holders under the explicit weak barriers, get_or_init on an empty OnceLock with a fresh value, and the root re-typing grid.",
                 tech="explicit-state BFS over barrier-path alphabet, closed scopes"),
     "C07": dict(engine="explorer", cat="model_checking", ref="5/C07",
-                text="Finalize / resurrect operations (through finish_marking and through zero-debt mark_debt) in every state of the finalization scopes with non-wrapping collector calls: is_dead vs shadow reachability (exact when no mutation since marking began), resurrect result vs drop log, phase after resurrection, and protection of the strong closure of resurrected objects until the cycle ends. The MarkedArena linearity programs of C08 run here too; weak pointers never traced this cycle (held by dead objects, made inside finalize) and queries after a barrier in the same callback are part of the monitor.",
+                text="Finalize / resurrect operations (through finish_marking and through zero-debt mark_debt) in every state of the finalization scopes with non-wrapping collector calls: is_dead vs shadow reachability (exact when no mutation since marking began), resurrect result vs drop log, phase after resurrection, and protection of the strong closure of resurrected objects until the cycle ends. The MarkedArena linearity and token-discipline programs of C08 run here too (is_dead / resurrect need the Finalization context of the same arena: a Mutation, another arena's Finalization or a forged / opened MarkedArena is rejected); weak pointers never traced this cycle (held by dead objects, made inside finalize) and queries after a barrier in the same callback are part of the monitor.",
                 tech="explicit-state BFS with finalization alphabet, per-cycle shadow bookkeeping"),
     "C08": dict(engine="explorer", cat="model_checking", ref="5/C08",
-                text="Contract table (phase before, call, debt class zero/epsilon/huge) -> allowed (phase after, MarkedArena returned) checked on every transition and by a probe performing each API call with each debt class from every state. Root operations also go through map_root / try_map_root, and the root re-typing grid checks the protocol across a change of the root type. A compile-time half checks that a MarkedArena is a linear token (consumed by finalize / start_sweeping, borrows the arena mutably, cannot be cloned or outlive it).",
+                text="Contract table (phase before, call, debt class zero/epsilon/huge) -> allowed (phase after, MarkedArena returned) checked on every transition and by a probe performing each API call with each debt class from every state. Root operations also go through map_root / try_map_root, and the root re-typing grid checks the protocol across a change of the root type. A compile-time half checks that a MarkedArena is a linear token (consumed by finalize / start_sweeping, borrows the arena mutably, cannot be cloned, forged, opened or outlive it; no Finalization context from a Mutation or for another arena).",
                 tech="explicit-state BFS + per-state probe of every API call x debt class"),
     "C10": dict(engine="explorer", cat="model_checking", ref="5/C10",
                 text="Metrics scope with the integer counters in the canonical state (non-tracing leaf objects, trace faults), barrier scope and a depth-bounded natural-debt scope with adjust_debt operations: count vs allocator, debt sign/finite/zero-when-empty, adjust exactness, debt never decreased by callbacks beyond forward-barrier mark credit, no panic (overflow checks and debug assertions are on). A finalization scope covers write barriers on an object revived in the same callback.",
@@ -46,19 +46,19 @@ CHECKS = {
                 text="Stash / stash-after-upgrade / clone / drop / fetch over 1-2 sets and up to 3 handles interleaved with collector increments, slot table in the state hash; handles are roots of the shadow (safety oracle + C02 probe = alive exactly while a handle exists); probes present every handle to the sibling set, to another arena's set and, after dropping the arena, to a live set.",
                 tech="explicit-state BFS with dynamic-root alphabet + per-state foreign-presentation probe"),
     "C09": dict(engine="grid", cat="exploration", ref="5/C09", note="Trusted base: the harness workloads and the bound derivation in DESIGN.md 5/C09; configurations outside the enumerated factor values, bursts and workloads are not covered. One known finding (stop-the-world return on an empty heap) is listed in known_findings.json.",
-                text="Every configuration of the stated grid (pacing factors satisfying the documented inequalities incl. stop-the-world, sleep parameters, six workload shapes, bursts, three drivers) is run on the real arena for 120 (thorough 400) rounds chained from the previous state; after every collector call: debt zero or stop phase, cycle bound A < rho*H/(1-rho) for cycles woken by a debt-driven call, stop-the-world rule, and the exact sleep threshold after every debt-free cycle. Scale cases (2 x 100 000 allocations, traceable, held by the root / in a chain / under one table) and pacing-switch cases extend the grid; a per-case watchdog turns a collector call that never returns into a verdict.",
+                text="Every configuration of the stated grid (pacing factors satisfying the documented inequalities incl. stop-the-world, sleep parameters, six workload shapes, bursts, three drivers) is run on the real arena for 120 (thorough 400) rounds chained from the previous state; after every collector call: debt zero or stop phase, cycle bound A < rho*H/(1-rho) for cycles woken by a debt-driven call, stop-the-world rule, and the exact sleep threshold after every debt-free cycle. Scale cases (2 x 100 000 allocations, traceable, held by the root / in a chain / under one table) pacing-switch cases, resurrection cases (one dead object resurrected through 1 / 2 / 64 weak registrations, or an already queued object that many times: the cycle bound holds with one allocation per cycle_debt call) and sleep-switch cases (set_pacing with other sleep parameters during a sleep: the current allowance stays, the next one follows the new pacing) extend the grid; a per-case watchdog turns a collector call that never returns into a verdict.",
                 tech="exhaustive enumeration of a finite configuration grid on the real code against a reference computation"),
     "C17": dict(engine="grid", cat="exploration", ref="5/C17", note="Trusted base: tracking allocator (layout pairing, quarantine), x86-64 / glibc; sizes and alignments outside the table are not covered.",
                 text="Every (size, alignment) of the table for sized values, slices, str, header+slice (incl. zero-sized and over-aligned headers/elements/lengths), six per-value metadata types and per-type metadata: alignment and extent checked against the allocator block before writing, position-dependent pattern intact across collections and mid-cycle stops, released with the identical layout (collected / arena dropped asleep / arena dropped mid-sweep), fat/thin and raw-pointer round trips preserve address and length. A user-defined pointer metadata for an unsized value (u32 rows whose width is per-type metadata) is allocated, completed / abandoned and released under the same layout pairing.",
                 tech="exhaustive enumeration of a layout grid on the real allocator path with a tracking allocator oracle"),
     "C18": dict(engine="grid", cat="exploration", ref="5/C18", note="Trusted base: tracking allocator, destructor log; element constructors panic via resume_unwind.",
-                text="Every builder kind x abandonment point (fresh, after header, constructor panic at every index k <= n, completed) x element kind (token, no drop glue, zero-sized, over-aligned) x arena phase (Sleeping, Marking, Marked, Sweeping) x copy source length n-1/n/n+1: destructor log equals the initialised parts exactly once, block released, Gc count / debt bits / phase unchanged by abandonment, constructor called exactly once per index in order, later collections and arena drop stay clean.",
+                text="Every builder kind (incl. header+slice builders made for a Static header / Static elements / both and unwrapped) x abandonment point (fresh, after header, constructor panic at every index k <= n, completed) x element kind (token, no drop glue, zero-sized, over-aligned) x arena phase (Sleeping, Marking, Marked, Sweeping) x copy source length n-1/n/n+1: destructor log equals the initialised parts exactly once, block released, Gc count / debt bits / phase unchanged by abandonment, constructor called exactly once per index in order, later collections and arena drop stay clean.",
                 tech="exhaustive enumeration of builder abandonment points on the real code"),
     "C12": dict(engine="probes", cat="exploration", ref="5/C12", note=PROBE_NOTE + " Five root-type shapes of the implied-'static family are listed as known findings (rustc #25860 family).",
                 text="Exhaustive enumeration of the brand-escape grammar (13 branded things x 17 escape routes x 8 API entry points, cross-arena uses under nested mutate / finalize, re-entrant collection calls, shrink/grow variance by value and behind references for 18 types, Send/Sync for 18 types incl. arenas with plain-data roots, root-type shapes implying 'gc: 'static): every negative program must be rejected by rustc, every positive twin accepted; accepted negatives are run to show the consequence. The payload lifetime of every written-to type (builders, Gc<Lock>, Gc<RefLock>) must neither shrink nor grow (D7), collection methods must demand a root that is Collect for every brand, and pointers that come out of conversions are escaping things too.",
                 tech="exhaustive enumeration of a bounded program grammar, compiler verdict per program, execution of accepted programs"),
     "C13": dict(engine="probes", cat="exploration", ref="5/C13", note=PROBE_NOTE + " Two barrier bypasses under an implied 'gc: 'static root shape are listed as known findings (same root cause as C12's).",
-                text="Typed term grammar (Write sources x 28 holder fields x projection chains up to depth 4/5 x sinks), typed under an over-approximate model so that impls that do not exist today are probed too; every program rustc accepts is run with the holder black in a fully marked arena and a fresh white child, violation = child reachable through the holder but destructed; fixed probes for forged Write, unsafe accessors, Cell/RefCell under derive with every mode/bound/require_static combination, user Unlock/DerefWrite/IndexWrite impls and user index types; the sanctioned setters are run as controls.",
+                text="Typed term grammar (Write sources x 28 holder fields x projection chains up to depth 4/5 x sinks), typed under an over-approximate model so that impls that do not exist today are probed too; every program rustc accepts is run with the holder black in a fully marked arena and a fresh white child, violation = child reachable through the holder but destructed; fixed probes for forged Write, unsafe accessors, Cell/RefCell under derive with every mode/bound/require_static combination, std OnceCell / sync::OnceLock / Mutex / RwLock / Rc<RefCell> / Box<Cell> holding a pointer (under derive and as the allocated value), unlock! on every holder field from the holder and from a white co-owner, user Unlock/DerefWrite/IndexWrite impls and user index types; the sanctioned setters are run as controls.",
                 tech="exhaustive enumeration of a typed program grammar; compiler verdict; accepted programs executed under a reachable-but-destructed oracle"),
     "C15": dict(engine="probes", cat="exploration", ref="5/C15", note=PROBE_NOTE,
                 text="1503 (thorough: more) derived type shapes in one generated program: every struct kind x field combination, one-/two-/three-variant enums incl. require_static fields at the position of a pointer in another variant, generics instantiated with tracing and non-tracing types, modes, bound overrides, gc_lifetime headers; for every shape x active variant the recording Trace multiset must equal the pointers in traced fields (directly and through the NEEDS_TRACE gate) and NEEDS_TRACE must equal the disjunction; ~90 rejection probes with twins for every misuse the statement lists, in several positions.",
@@ -67,7 +67,7 @@ CHECKS = {
                 text="For every provided Collect impl x type-parameter position x element position (sizes 0..3, tuples of every arity x every position, wrapped VecDeque ring buffers, set/unset OnceLock, inline/spilled SmallVec, SlotMap after removal, optional crates) a Gc or GcWeak is placed in exactly that position and the recording Trace multiset compared through the NEEDS_TRACE gate; NEEDS_TRACE true whenever a parameter's is; an end-to-end survival program; 35 types that must not be Collect<'gc> (interior mutability, non-'static references, Static of branded types, foreign brands, hashers holding pointers, static_collect! on branded types) with twins.",
                 tech="exhaustive enumeration of impl x position grid in a generated program; compiler verdict for non-Collect probes"),
     "C19": dict(engine="probes", cat="exploration", ref="5/C19", note=PROBE_NOTE + " Run-time half: tracking allocator and destructor log. ZstCache::alloc_zst is a known finding.",
-                text="Run-time half (grid): all chains up to length 2 (thorough 3) of identity-typed conversions on a sized value x 5 terminal conversions, chains up to 3 for slice / str / header+slice / unsized array / RefLock<dyn>, converted weak pointers, upgrade+convert+stash in every collector phase with the handle as the only root, ZstCache<1|8|64> x alignments x entry points: identity, dereference, survival through two cycles, single destruction. Rejection half (probes): every public unsafe fn / unsafe trait used without unsafe, builders' assume_init for uninhabited and private types, safe conjuring attempts.",
+                text="Run-time half (grid): all chains up to length 2 (thorough 3) of identity-typed conversions on a sized value x 5 terminal conversions, chains up to 3 for slice / str / header+slice / unsized array / RefLock<dyn>, converted weak pointers, upgrade+convert+stash in every collector phase with the handle as the only root, ZstCache<1|8|64> x alignments x entry points: identity, dereference, survival through two cycles, single destruction. The builder grid of C18 runs as a further run-time stage (a builder that completes without the caller having supplied every element hands out a value nobody constructed). Rejection half (probes): every public unsafe fn / unsafe trait used without unsafe, builders' assume_init for uninhabited and private types, safe conjuring attempts.",
                 tech="exhaustive enumeration of conversion chains on the real code + enumeration of conjuring programs with compiler verdict"),
     "C20": dict(engine="explorer", cat="model_checking", ref="5/C20",
                 text="Product exploration of two real arenas with different pacing on one thread (allocation, links, weak pointers, handles, collector steps, dropping either arena): after every operation on one arena the other arena's canonical bookkeeping (incl. colours), drop log, Gc count, debt bits, phase and handles are bit-identical, its own oracles still hold, foreign handles are refused (also stale handles meeting recycled addresses after an arena died), and C02/C04 probes hold per arena in every product state. Compile-time half: 57 programs - every brand-preserving conversion applied to a pointer of arena 1 and used with arena 2 under nested callbacks, plus the cross-arena part of the C12 grammar - must be rejected (twins within one arena compile). Handles may be owned by heap values of the other arena (released when those are destructed), and a lifecycle grid requires a newly created arena to behave exactly as on a pristine thread after every sequence of <= 2 earlier arena lifecycles (pacing x outstanding Metrics clone x fate).",
